@@ -2223,6 +2223,13 @@ func (db *DatabaseCollectionWithUser) resolveDocMerge(ctx context.Context, local
 		return "", nil, err
 	}
 
+	// A resolver that answers null (Body{_deleted:true}) or a document carrying _deleted:true asks for a delete:
+	// the merged revision is a tombstone, and _deleted is not part of the stored body.
+	if mergedDeleted, _ := mergedBody[BodyDeleted].(bool); mergedDeleted {
+		remoteDoc.Deleted = true
+	}
+	delete(mergedBody, BodyDeleted)
+
 	// Update the remote document's body to the merge result
 	remoteDoc.RevID = mergedRevID
 	remoteDoc.RemoveBody()
